@@ -297,6 +297,9 @@ def solve(spec, reduction=True, max_iter=None, tol_param=None, text=None, trace_
         es.ParameterErrorTolerance = tol_param
     if trace_step is not None:
         es.TraceStep = trace_step
+    if steady:
+        es.ParameterSolveInitialSteadyState = True
+        es.ParameterInitialSteadyStateMaxTime = 60
     try:
         es.ParseString(text)
         es.SolveEquation()
